@@ -152,6 +152,26 @@ class Prop(BaseProp):
                     if c2 != want:
                         return Verdict('spec', dict(case, inputs=[m if isinstance(m, str) else str(m) for m in mixed]),
                                        'combine_expressions result on string inputs', impl=c2, model=want)
+        # dedup of a *string*: what dedup gives for the expression the same instance parses the string to - over a table with
+        # aliases and a key of two words, the licenses written through any of their names
+        T2 = [['gpl-2.0', ['GPL2', 'GNU GPL v2'], False], ['mit', ['expat'], False], ['lesser gpl', [], False]]
+        L2 = P.licensing(T2)
+        names = {'a': 'GPL2', 'b': 'gnu gpl v2', 'c': 'expat', 'mit': 'mit', 'gpl 2.0': 'Lesser GPL', 'x': 'gpl-2.0', 'A': 'u1', 'MIT': 'MIT', 'GPL 2.0': 'zed'}
+
+        def ren(t):
+            if t[0] == 'sym':
+                return [t[0], names.get(t[1], t[1]), False]
+            if t[0] == 'with':
+                return [t[0], names.get(t[1], t[1]), False, names.get(t[3], t[3]), False]
+            return [t[0]] + [ren(x) for x in t[1:]]
+        text = gen.tree_text(_random.Random(len(repr(tree))), ren(tree))
+        po = impl.outcome(lambda: L2.parse(text))
+        if P.is_ok(po) and po[1] is not None:
+            want_s = impl.tree_c(L2.dedup(po[1]))
+            got_s = impl.outcome(lambda: L2.dedup(text))
+            got_s = impl.tree_c(got_s[1]) if P.is_ok(got_s) else got_s[:2]
+            if got_s != want_s:
+                return Verdict('spec', dict(case, text=text), 'dedup(string) differs from dedup of the expression the string parses to', impl=got_s, model=want_s)
         return Verdict('ok', case, impl=dt, nontrivial=dt != before, tags=['changed=%s' % (dt != before), 'render-colliding=%s' % collide])
 
     def run(self, drv, rng, tier, index, nworkers, scale):
